@@ -180,6 +180,38 @@ def op_nested(k=0):
     return ctx(body)
 
 
+_FRESH = {}
+
+
+def refresh_fresh():
+    """brand-new annotation classes (every subscription creates a new class): whatever an implementation
+    builds lazily on the first check of a class is then built while several threads are inside it"""
+    import jaxtyping
+    from jaxtyping import Float, Int, PyTree, Shaped
+
+    N = np.ndarray
+    _FRESH.clear()
+    _FRESH.update(f=Float[N, "a b"], i=Int[N, "a"], s=Shaped[N, "*v c"], n=jaxtyping.Num[N, "a"], t=PyTree[Float[N, "a"], "T"], u=jaxtyping.UInt8[N, "..."])
+
+
+def op_fresh(k=0):
+    def body():
+        r = (
+            real.check(A(2, 3), _FRESH["f"]),
+            real.check(A(2, dt="int32"), _FRESH["i"]),
+            real.check(A(2, dt="float32"), _FRESH["i"]),
+            real.check(A(4, 5), _FRESH["s"]),
+            real.check(A(2, dt="complex64"), _FRESH["n"]),
+            real.check(A(2, dt="bool"), _FRESH["n"]),
+            real.check([A(2), A(2)], _FRESH["t"]),
+            real.check(A(3, dt="uint8"), _FRESH["u"]),
+            real.check(A(3, dt="int8"), _FRESH["u"]),
+        )
+        return r, real.raw_transcript()
+
+    return ctx(body)
+
+
 def op_error_message(k=0):
     try:
         _ANN["bad"](A(2 + k, 3), A(4 + k))
@@ -210,8 +242,8 @@ def pr_struct(k=0):
     return ctx(lambda: (real.check((1, 2), _ANN["int_tree"]), real.check((1, (2, 3)), _ANN["int_tree"]), real.raw_transcript()))
 
 
-OPS = {"qtree": op_qtree, "rollback": op_rollback, "call": op_call, "block": op_block, "tuptree": op_tuptree, "errmsg": op_error_message, "nested": op_nested}
-PROBES = {"wrong_dtype": pr_wrong_dtype, "question_outside": pr_question_outside, "same_name": pr_same_name, "toplevel": pr_toplevel, "struct": pr_struct, "call": op_call, "qtree": op_qtree, "nested": op_nested}
+OPS = {"qtree": op_qtree, "rollback": op_rollback, "call": op_call, "block": op_block, "tuptree": op_tuptree, "errmsg": op_error_message, "nested": op_nested, "fresh": op_fresh}
+PROBES = {"fresh": op_fresh, "wrong_dtype": pr_wrong_dtype, "question_outside": pr_question_outside, "same_name": pr_same_name, "toplevel": pr_toplevel, "struct": pr_struct, "call": op_call, "qtree": op_qtree, "nested": op_nested}
 ALL = dict(OPS, **{"pr_" + k: v for k, v in PROBES.items()})
 
 
@@ -232,8 +264,10 @@ def run_single_preemptions(rec, shard, tier):
         if idx % NSHARDS != shard["i"]:
             continue
         fa, fb = OPS[a], PROBES[b]
+        refresh_fresh()
         exp_a, exp_b = solo(fa, 1), solo(fb, 2)
         # dry run: count A's yield points
+        refresh_fresh()
         res, bat = SCH.run([lambda: fa(1)], SCH.never, opcodes=opcodes)
         K = bat.points[0]
         if res[0] != exp_a:
@@ -256,6 +290,8 @@ def run_single_preemptions(rec, shard, tier):
                     pass
                 return fb(2)
 
+            if "fresh" in (a, b):
+                refresh_fresh()
             res, bat = SCH.run([lambda: fa(1), probe_and_peek], SCH.preempt_once(0, k, 1), opcodes=opcodes)
             rec.count("single_preemption.runs")
             if any(r is None or r[0] == "deadlock" for r in res):
@@ -295,7 +331,9 @@ def run_random(rec, seed, shard, tier):
         rng = random.Random(f"{seed}/C06/{shard['i']}/{s}")
         nthreads = rng.choice((2, 3))
         plans = [[(rng.choice(names), rng.randint(0, 3)) for _ in range(rng.choice((5, 10, 30)))] for _ in range(nthreads)]
+        refresh_fresh()
         exp = [[ALL[n](k) for n, k in plan] for plan in plans]
+        refresh_fresh()
         mk = lambda plan: (lambda: [ALL[n](k) for n, k in plan])
         wls = [mk(p) for p in plans]
         if s % 3 == 0:
@@ -338,7 +376,9 @@ def run_stress(rec, seed, shard, tier):
     names = sorted(ALL)
     nthreads = 8
     plans = [[(rng.choice(names), rng.randint(0, 3)) for _ in range(150 if tier == "quick" else 1500)] for _ in range(nthreads)]
+    refresh_fresh()
     exp = [[ALL[n](k) for n, k in plan] for plan in plans]
+    refresh_fresh()
     out = [None] * nthreads
     start = threading.Barrier(nthreads)
 
@@ -406,6 +446,7 @@ def measure_windows(rec):
 def run_shard(rec, seed, shard, tier):
     warnings.filterwarnings("ignore")
     prepare()
+    refresh_fresh()
     att = shadowstore.attach()
     rec.info["shadow_store_attached"] = att
     # solo determinism first
@@ -428,6 +469,7 @@ def run_shard(rec, seed, shard, tier):
 def replay(rec, case):
     warnings.filterwarnings("ignore")
     prepare()
+    refresh_fresh()
     shadowstore.attach()
     if "op" in case and "k" in case:
         fa, fb = OPS[case["op"]], PROBES[case["probe"]]
